@@ -536,6 +536,11 @@ def harness(ctx, cfg):
             ctx.oblige("C05.lineage_update_reaches_all_descendants", And(c5), "C05")
         if want("C04"):
             ctx.oblige("C04.track_update_covers_exactly_the_segment", And(c4), "C04")
+    if cfg.get("query_after") and is_user and want("C06"):
+        # ONE query per path: (after the edit | after its undo) x (neighbours | presence)
+        p.query_sel = ctx.choose(4, "query_point")
+        if p.query_sel < 2:
+            queries_at(ctx, p, S1, ":after_edit")
     fu_undo = bool(is_user and props and cfg.get("followup", True) and not disabled
                    and any(q in FOLLOW_PROPS for q in props))
     if want("C01") or want("C20") or want("C02") or want("C06") or fu_undo:
@@ -547,6 +552,8 @@ def harness(ctx, cfg):
                 S2 = Snap(p, k)
                 e2 = list(p.emitted)
                 del p.emitted[:]
+                if cfg.get("query_after") and want("C06") and r1 is True and p.query_sel >= 2:
+                    queries_at(ctx, p, S2, ":after_undo")
                 if fu_undo and r1 is True and followup(ctx, p, cfg, S2, k, "undo"):
                     return
                 if not (want("C01") or want("C20") or want("C02") or want("C06")):
@@ -708,6 +715,36 @@ def followup(ctx, p, cfg, S, k, after):
         ctx.oblige("C01.second_edit_undo_exact", And(same_graph(S, S3), same_attrs(S, S3)), "C01")
         ctx.oblige("C01.second_edit_redo_exact", And(same_graph(S2, S4), same_attrs(S2, S4)), "C01")
     return True
+
+
+def queries_at(ctx, p, S, where):
+    """C06 at a HISTORY-BUILT state (after the edit / after its undo): the track queries against a scan of the current
+    graph, with fresh unconstrained arguments.  A query answered from bookkeeping that an edit or an undo left stale
+    (or from a cache a query itself filled earlier) shows up here, not in the run from a constructed state."""
+    tr, n = p.tr, S.sh.n
+    qk, qt = z3.Int("q_track" + where), z3.Int("q_time" + where)
+    ctx.input("query_args" + where, dict(k=qk, t=qt))
+    on = [And(S.sh.al[i], S.tid[i] == qk) if S.tid[i] is not None else z3.BoolVal(False) for i in range(n)]
+    tt = [S.t[i] if S.t[i] is not None else z3.IntVal(0) for i in range(n)]
+    if p.query_sel % 2 == 0:
+        pred, succ = tr.get_track_neighbors(SInt(qk), SInt(qt))
+
+        def is_pred(i):
+            return And(on[i], tt[i] < qt, And([Implies(And(on[j], tt[j] < qt), tt[j] <= tt[i]) for j in range(n) if j != i]))
+
+        def is_succ(i):
+            return And(on[i], tt[i] > qt, And([Implies(And(on[j], tt[j] > qt), tt[j] >= tt[i]) for j in range(n) if j != i]))
+
+        none_pred = Not(Or([And(on[i], tt[i] < qt) for i in range(n)]))
+        none_succ = Not(Or([And(on[i], tt[i] > qt) for i in range(n)]))
+        ctx.oblige("C06.track_neighbors_pred" + where,
+                   none_pred if pred is None else is_pred(p.g.ids.index(int(pred))), "C06")
+        ctx.oblige("C06.track_neighbors_succ" + where,
+                   none_succ if succ is None else is_succ(p.g.ids.index(int(succ))), "C06")
+    else:
+        r = tr.has_track_id_at_time(SInt(qk), SInt(qt))
+        truth = Or([And(on[i], tt[i] == qt) for i in range(n)])
+        ctx.oblige("C06.has_track_id_at_time" + where, truth if r else Not(truth), "C06")
 
 
 # ------------------------------------------------------------------ query semantics (C06)
